@@ -5,9 +5,12 @@
 package msgs
 
 import (
+	"bytes"
 	"encoding/binary"
 	"fmt"
 	"io"
+	"io/ioutil"
+	"math"
 	"strings"
 )
 
@@ -104,9 +107,8 @@ func (dtm *DataTransmissionMessage) Unmarshal(r io.Reader) error {
 
 	// TODO: Transfer Extension Items
 	if transferExtLen > 0 {
-		transferExtBuff := make([]byte, transferExtLen)
-
-		if _, err := io.ReadFull(r, transferExtBuff); err != nil {
+		// Skip the items without allocating a buffer of the announced, possibly huge, length.
+		if _, err := io.CopyN(ioutil.Discard, r, int64(transferExtLen)); err != nil {
 			return err
 		}
 	}
@@ -114,13 +116,15 @@ func (dtm *DataTransmissionMessage) Unmarshal(r io.Reader) error {
 	var dataLen uint64
 	if err := binary.Read(r, binary.BigEndian, &dataLen); err != nil {
 		return err
+	} else if dataLen > math.MaxInt32 {
+		return fmt.Errorf("XFER_SEGMENT's data length of %d is too large", dataLen)
 	} else if dataLen > 0 {
-		dtm.Data = make([]byte, dataLen)
-		if _, err := io.ReadFull(r, dtm.Data); err != nil {
+		// Do not allocate based on the announced length, let the buffer grow with the data which is really read.
+		var dataBuff bytes.Buffer
+		if _, err := io.CopyN(&dataBuff, r, int64(dataLen)); err != nil {
 			return err
-		} else if dataLen != uint64(len(dtm.Data)) {
-			return fmt.Errorf("XFER_SEGMENT's data length should be %d, got %d bytes", dataLen, len(dtm.Data))
 		}
+		dtm.Data = dataBuff.Bytes()
 	}
 
 	return nil
